@@ -5,6 +5,15 @@ here = os.path.dirname(os.path.dirname(os.path.abspath(__file__)))
 
 # id -> (technique, level text, level note, design ref)
 CHECKS = {
+    "C20": (
+        "Hypothesis-generated process configurations executed with forked workers under a harness-forced overlap (barriers around start and temp-file creation); differential against solitary imports",
+        "2-40 importer processes (GFF3/GTF inputs, same or different, offsets 0-20 ms, one shared TMPDIR) are released together and held at the "
+        "creation of their intermediate file until all have one; every output snapshot must equal the solitary import of its input, the shared "
+        "temp dir must be empty afterwards, and 2-32 concurrent readers of a finished file must all see its full content. Overlapping pairs and "
+        "barrier meetings are measured and reported; the clock is never an oracle.",
+        "Schedules are sampled, not enumerated; inputs are paths.",
+        "DESIGN.md section 4 C20",
+    ),
     "C10": (
         "Hypothesis RuleBasedStateMachine (model-based stateful testing) + exhaustive enumeration of short operation sequences; full-snapshot invariant after every step",
         "Histories over update (five strategies; list / generator / text-path input), delete (ids, Features, missing), add_relation, reopen, empty "
